@@ -367,6 +367,23 @@ func checkC13(c *Ctx) {
 	}
 	c.checkParserStopOrder("C13-STOP")
 	c.checkLexerTokenOrder("C13-ORDER")
+	// the end-of-text flush feeds the rune that ends every pending construct it claims to end
+	if f := c.fn("Lexer.flushAtEnd"); f != nil {
+		lexNext := c.fn("Lexer.LexNextRune")
+		n := 0
+		if lexNext != nil {
+			for _, ci := range callsOf(f, lexNext) {
+				n++
+				k, isK := constIntOf(ci.Common().Args[1])
+				c.check(isK && k == '\n', "C13-FLUSH", "Lexer.flushAtEnd", "terminates the pending construct with a newline", ci.Pos(),
+					"the final flush feeds a newline, which ends atoms, operators and line comments alike",
+					"the final flush feeds a rune other than a newline: a line comment ends only at a newline, so a text or piece that ends inside one loses the comment (or keeps it open into the next piece), and pieced and whole parses differ")
+			}
+		}
+		if n == 0 {
+			c.undecided("C13-FLUSH", "Lexer.flushAtEnd", "terminating rune", f.Pos(), "the final flush no longer feeds a rune to the lexer")
+		}
+	}
 	// the look-ahead helper never hands the end-of-input marker to its caller as a token
 	{
 		ok, why := c.peekContract()
